@@ -106,8 +106,13 @@ def configs(tier):
             for c1i in range(len(C1_SPECS)):
                 if tier == 'quick' and len(specs) > 60 and c1i and (si + c1i) % 5:
                     continue
-                out.append(dict(kind='prog', c0=spec, c1=c1i, c2=(si + c1i) % 3,
-                                ev=EV_SPECS[(si + c1i) % len(EV_SPECS)]))
+                if tier == 'quick':
+                    out.append(dict(kind='prog', c0=spec, c1=c1i, c2=(si + c1i) % 3,
+                                    ev=EV_SPECS[(si + c1i) % len(EV_SPECS)]))
+                else:
+                    for c2i in range(len(C2_SPECS)):
+                        for ev in EV_SPECS:
+                            out.append(dict(kind='prog', c0=spec, c1=c1i, c2=c2i, ev=ev))
     for ev in EV_SPECS:
         for c1i in range(len(C1_SPECS)):
             for c2i in range(len(C2_SPECS)):
